@@ -106,13 +106,31 @@ def main(argv):
         try:
             out = python_minifier.minify(src, rename_locals=False, hoist_literals=False, constant_folding=False)
         except Exception as ex:
-            fails.append({'input': src, 'failure': 'minify raised %s: %s' % (type(ex).__name__, str(ex)[:100])})
+            fails.append({'input': src, 'mechanism': 'format-spec-quirk' if ':\r{' in src else None, 'failure': 'minify raised %s: %s' % (type(ex).__name__, str(ex)[:100])})
             continue
         try:
             if strip(ast.parse(out)) != key:
                 fails.append({'input': src, 'failure': 'output parses to a different tree: %r' % out[:200]})
         except (SyntaxError, ValueError) as ex:
             fails.append({'input': src, 'failure': 'output does not parse: %r' % out[:200]})
+    # family 3: text that looks like a debug specifier for an equal but differently typed constant; empty nested f-strings; format spec corner cases
+    lookalikes = [("False", "0"), ("0", "False"), ("1", "1.0"), ("1.0", "1"), ("True", "1"), ("0j", "0"), ("[1, 2]", "[1.0, 2.0]"), ("a[True]", "a[1]"), ("x", "x"), ("1", "1")]
+    extra = ["v = f'%s={%s!r}'" % (t, e) for t, e in lookalikes] + ["v = f'%s={%s!r:>5}'" % (t, e) for t, e in lookalikes[:4]] + \
+            ["v = f\"{f''}\"", "v = f\"{s:>{w}}{f''}\"", "v = f'''{x if x else f\"\"}'''", "v = f'{a:\\ud800}'", "v = f'{a:\\x00}'"]
+    quirks = ["v = f'{x:\r{x}}'", "v = f'{t:\\N{BULLET}^20}'", "v = f'{a:{{b}}}'", "v = f'{a:{{}}}'", "v = f\"{a:'''\\\"\\\"\\\"}\"", "v = f'{x:\\x7d}'"]
+    for src in extra + quirks:
+        try:
+            key = strip(ast.parse(src))
+        except (SyntaxError, ValueError):
+            continue
+        cases += 1
+        mech = 'format-spec-quirk' if src in quirks else None
+        try:
+            out = python_minifier.minify(src, rename_locals=False, hoist_literals=False, constant_folding=False)
+            if strip(ast.parse(out)) != key:
+                fails.append({'input': src, 'mechanism': mech, 'failure': 'output parses to a different tree: %r' % out[:200]})
+        except Exception as ex:
+            fails.append({'input': src, 'mechanism': mech, 'failure': 'minify raised %s: %s' % (type(ex).__name__, str(ex)[:100])})
     for e in exprs:
         for conv in ('', '!r', ':>{w}'):
             src = 'x=f"{ %s%s}"' % (e, conv)
@@ -137,6 +155,7 @@ def main(argv):
                 continue
             if strip(back) != key:
                 fails.append({'input': src, 'failure': 'output parses to a different tree: %r' % out})
+    fails.sort(key=lambda f: bool(f.get('mechanism')))
     print(json.dumps({'cases': cases, 'failures': fails[:40], 'n_failures': len(fails)}))
 
 
